@@ -373,7 +373,7 @@ MANIFEST_TEXT["C13"] = dict(
 
 CHECKS["C19"] = dict(
     {"quick": {"tests": [{"test": "TestC19", "checks": 3000, "subchecks": 6},
-                         {"test": "TestC19Runs", "checks": 1500, "subchecks": KINDS7}]},
+                         {"test": "TestC19Runs", "checks": 2500, "subchecks": KINDS7}]},
      "thorough": {"shards": 16, "tests": [{"test": "TestC19", "checks": 8000, "subchecks": 6},
                                           {"test": "TestC19Runs", "checks": 4000, "subchecks": KINDS7}]}},
     rule=("(a)+(b) parser histories as C01 for the six non-optimising kinds: every emitted match ends at the block end or "
@@ -455,8 +455,8 @@ for _pid in ("C04", "C05", "C06", "C07", "C17", "C18"):
                              "matches of up to 5 MiB (overlapping copies whose doubling passes 1 MiB, offsets beyond 2^16 and 2^20), "
                              "Init again with another geometry, writer faults with megabytes pending; same oracles.")
 
-CHECKS["C13"]["quick"]["tests"].append({"test": "TestC13ManyResets", "checks": 300, "subchecks": KINDS7})
-CHECKS["C13"]["thorough"]["tests"].append({"test": "TestC13ManyResets", "checks": 1000, "subchecks": KINDS7})
+CHECKS["C13"]["quick"]["tests"].append({"test": "TestC13ManyResets", "checks": 1500, "subchecks": KINDS7})
+CHECKS["C13"]["thorough"]["tests"].append({"test": "TestC13ManyResets", "checks": 4000, "subchecks": KINDS7})
 CHECKS["C13"]["quick"]["tests"].append({"test": "TestC13Enum", "checks": 1, "subchecks": 3337242})
 CHECKS["C13"]["thorough"]["tests"].append({"test": "TestC13Enum", "checks": 1, "subchecks": 10403610, "once": True,
                                            "env": {"VERIF_C13_H1": "8", "VERIF_C13_H2": "10"}})
